@@ -20,6 +20,7 @@ import (
 	"strconv"
 	"strings"
 	"sync"
+	"sync/atomic"
 	"time"
 
 	"github.com/anthdm/hollywood/actor"
@@ -81,13 +82,28 @@ type rig struct {
 	nsent        map[string]int
 }
 
+// freeAddr: a loopback address nobody listens on.  Ports are taken from below the ephemeral range, each one only once
+// per process: a port the kernel hands out for ":0" can be handed out again while a peer of some case is down (to
+// another case's listener, or as the source port of the very dial that is supposed to fail -- a TCP self-connect), and
+// the "unreachable" peer would then be reachable.
+var nextPort atomic.Int32
+
+func init() { nextPort.Store(int32(12000 + (os.Getpid()%90)*200)) }
+
 func freeAddr() string {
-	l, err := net.Listen("tcp", "127.0.0.1:0")
-	if err != nil {
-		panic(err)
+	for {
+		p := nextPort.Add(1)
+		if p >= 32000 {
+			nextPort.Store(12000)
+			continue
+		}
+		l, err := net.Listen("tcp", fmt.Sprintf("127.0.0.1:%d", p))
+		if err != nil {
+			continue
+		}
+		l.Close()
+		return l.Addr().String()
 	}
-	defer l.Close()
-	return l.Addr().String()
 }
 
 func parse(data []byte) (string, int, int, bool) {
